@@ -34,6 +34,24 @@ type FieldRec struct {
 	EltDWC  uint16 `json:"eltdwc,omitempty"`  // List(struct): the element node's sizes
 	EltPC   uint16 `json:"eltpc,omitempty"`
 	EltList bool   `json:"eltlist,omitempty"` // List(struct)
+	// struct / list / anyPointer default: the bytes the generator embeds (message holding the default
+	// as its root, as staticData.copyData marshals it); nil for a null default
+	DefBytes []byte `json:"-"`
+}
+
+// DefaultBytes marshals a default pointer the way capnpc-go's staticData.copyData does.
+func DefaultBytes(p capnp.Ptr) ([]byte, error) {
+	if !p.IsValid() {
+		return nil, nil
+	}
+	m, _, err := capnp.NewMessage(capnp.SingleSegment(nil))
+	if err != nil {
+		return nil, err
+	}
+	if err := m.SetRoot(p); err != nil {
+		return nil, err
+	}
+	return m.Marshal()
 }
 
 // IfaceRec: the parameter / result struct types of an interface's methods.
@@ -340,6 +358,20 @@ func Build(reqName, pkg string, req schema.CodeGeneratorRequest, fileID uint64, 
 					return fmt.Errorf("%s.%s: %v", goName, fname, err)
 				}
 				fr.TypeID = typeRefID(ty)
+				if dv.IsValid() {
+					var dp capnp.Ptr
+					switch fr.Kind {
+					case "struct":
+						dp, _ = dv.StructValue()
+					case "list":
+						dp, _ = dv.List()
+					case "any":
+						dp, _ = dv.AnyPointer()
+					}
+					if fr.DefBytes, err = DefaultBytes(dp); err != nil {
+						return err
+					}
+				}
 				if fr.Kind == "list" {
 					et, _ := ty.List().ElementType()
 					fr.ListElt = KindOf(et)
